@@ -131,6 +131,19 @@ Fixpoint rep_confined (c : cm) : bool :=
   | Occ _ mx b => if enat_leb mx (Some 1) then rep_confined b else single_names b
   end.
 
+(* names of the repeated groups; the property's order promise is only kept by the generator when such a
+   name does not occur a second time in the model: UpdateAttributesEffectiveChoice merges equal-named attrs
+   (here: one outside, one inside the repeated choice) into one list field and regroups only the attrs lying
+   between the first and the last duplicate, so the rest of the choice stays a separate field *)
+Fixpoint rep_group_names (c : cm) : list name :=
+  match c with
+  | Elem _ | AnyElem _ => []
+  | Seq l | Choice l | All l => concat (map rep_group_names l)
+  | Occ _ mx b => if enat_leb mx (Some 1) then rep_group_names b else alphabet b
+  end.
+Definition rep_names_unique (c : cm) : bool :=
+  forallb (fun q => countP (name_eqb q) (alphabet c) =? 1) (rep_group_names c).
+
 Definition ctype_cm (t : ctype) : cm := match t with CElems c | CMixed c => c | _ => Seq [] end.
 
 (* ---------------------------------------------------------------- programs *)
@@ -166,6 +179,14 @@ Definition model_capacity_ok (c : cm) (attrs : list attr) : bool :=
 Definition amp_default (c : eclass) : bool :=
   existsb (fun d => match ad_use d with AFixed v | ADefault v => mem 38%N v | _ => false end) (ec_decls c).
 
+(* clause dupchoice: no element name is a member of two different choice groups.  The mapper gives such
+   attrs different choice ids but no path; MergeAttributes then takes them for mutually exclusive branches
+   ("different sibling choices at same depth": both paths are empty) and keeps max(...) instead of the sum. *)
+Definition choice_dups_ok (attrs : list attr) : bool :=
+  forallb (fun a => forallb (fun b =>
+    negb (is_element_attr a && is_element_attr b && str_eqb (attr_clark a) (attr_clark b)
+          && match a_choice a, a_choice b with Some x, Some y => negb (path_eqb x y) | _, _ => false end)) attrs) attrs.
+
 Definition class_flags (c : eclass) : list bool :=
   let m := ctype_cm (ec_ctype c) in
   [ check (ec_ctype c) (ec_meta c);                                   (* 0 validator: children *)
@@ -175,7 +196,9 @@ Definition class_flags (c : eclass) : list bool :=
     rep_confined m;                                                   (* 4 the property's side condition *)
     cm_wf m;                                                          (* 5 *)
     amp_default c;                                                    (* 6 a declared default / fixed value contains "&" *)
-    match ec_raw c with Some r => guard_orseq r | None => true end ].  (* 7 guard clause orseq (compound fields) *)
+    match ec_raw c with Some r => guard_orseq r | None => true end;   (* 7 guard clause orseq (compound fields) *)
+    rep_names_unique m;                                               (* 8 guard clause repdup (compound fields) *)
+    choice_dups_ok (ec_model_attrs c) ].                              (* 9 guard clause dupchoice *)
 
 Definition rejected_of (c : eclass) : option (list name) :=
   match ec_ctype c with CElems m | CMixed m => rejected_word m (ec_meta c) | _ => None end.
